@@ -274,14 +274,20 @@ theorem handleAllocationDone_winv (m : M) (ex mi : Bool) (h : WInv m.1) (l : Lif
     exact Nat.lt_succ_of_le (h.wg w hw)
   rw [handleAllocationDone_eq, hX]
   have fresh : WInv (hadFresh X).1 := by
+    have hi : WInv (hadFreshInstall X).1 := by
+      unfold hadFreshInstall
+      simp only [onSt_fst]
+      obtain ⟨L, hL1, hL2⟩ := markPaddingPieces_same
+        ({ X.1 with bf := some (List.replicate X.1.n false) }).resetCompletion (List.replicate X.1.n false)
+        (by simp) (by subst hX; simp [hadInstall, St.n])
+      exact h.of_stale (by simpa using x1) (by simpa using x3) (by simpa using hg) (fun _ => by simpa using x5)
+        (by simpa using x6) (x7.of_peers (by simp)) (bd_of_same L hL1 hL2) (by simp [x8]) (by simpa using x9)
     unfold hadFresh
-    apply hadCheck_winv
-    simp only [onSt_fst]
-    obtain ⟨L, hL1, hL2⟩ := markPaddingPieces_same
-      ({ X.1 with bf := some (List.replicate X.1.n false) }).resetCompletion (List.replicate X.1.n false)
-      (by simp) (by subst hX; simp [hadInstall, St.n])
-    exact h.of_stale (by simpa using x1) (by simpa using x3) (by simpa using hg) (fun _ => by simpa using x5)
-      (by simpa using x6) (x7.of_peers (by simp)) (bd_of_same L hL1 hL2) (by simp [x8]) (by simpa using x9)
+    dsimp only
+    split
+    · simp only [onSt_fst]
+      exact stop_winv _ _ (hi.frame (by wframe_eq))
+    · exact hadCheck_winv _ hi
   have ver : WInv (onSt X fun s => { s with verifier := true }).1 := by
     simp only [onSt_fst]
     exact h.of_stale x1 x3 hg (fun _ => x5) x6 x7 (fun _ hv => by cases hv) (by simp [x8]) x9
